@@ -212,8 +212,9 @@ where
 
                 // Handle post-commit operations
 
-                // Check if the local member was removed by this commit
-                if mls_group.own_leaf().is_none() {
+                // Check if the local member was removed by this commit. The MLS group's own state says so;
+                // the leaf at the own index does not: a member added by the same commit takes the vacated slot.
+                if !mls_group.is_active() {
                     return match self.handle_local_member_eviction(&group.mls_group_id, event) {
                         Ok(_) => Ok(MessageProcessingResult::Commit {
                             mls_group_id: group.mls_group_id.clone(),
